@@ -106,6 +106,13 @@ func c01CwdRequests(reqs []harness.Req) []harness.Req {
 	for _, p := range []string{"/", "/.", "/a/.."} {
 		out = append(out, harness.Req{Method: "DELETE", Path: p})
 	}
+	// listings and reads of names beginning with a dot
+	for _, p := range []string{"/", "/.config", "/a", "/.profile", "/..rc", "/a/.hidden"} {
+		for _, d := range []string{"0", "1", "infinity"} {
+			out = append(out, harness.Req{Method: "PROPFIND", Path: p, Header: map[string]string{"Depth": d}})
+		}
+		out = append(out, harness.Req{Method: "GET", Path: p})
+	}
 	return out
 }
 
